@@ -407,6 +407,10 @@ def run(ctx):
     c04.rule_boundary(ctx, ctx.py, tu, "C07.UNITS")
     from .. import dim
     dim.rule_stochastic(ctx, tu, "C07.DIM")
+    from .. import argorder
+    argorder.rule(ctx, "C07.ARGS", py_modules=(), cx=True)
+    from .. import ffi
+    ffi.rule_sig(ctx, "C07.FFI")
     ctx.assume("NOT decided: that waiting times and event choices follow the master-equation distribution, the Poisson "
                "law of tau-leap counts, non-negativity of states, strict increase of time (distributional / value-level)")
     ctx.assume("chemostat exemption is C03.GUARD-ID; the pairing rule is shared with C02.PAIR")
